@@ -19,27 +19,67 @@ def eff(k, fs):
     return int(round((k / fs) * fs))
 
 
+def _cal(cfg):
+    if cfg.get('cal'):
+        from psiaudio.calibration import FlatCalibration
+        return FlatCalibration.unity()
+    return None
+
+
+def _kw(cfg, names, **fixed):
+    """keyword arguments for exactly the options present in cfg (absent option = the constructor's own default)"""
+    kw = dict(fixed)
+    for key, name in names.items():
+        if key in cfg:
+            kw[name] = cfg[key]
+    if cfg.get('cal'):
+        kw['calibration'] = _cal(cfg)
+    return kw
+
+
+def tsec(cfg, key, fs):
+    """the seconds value handed to the code for the sample count cfg[key] (k/fs; the int 0 when cfg['int0'] and k == 0)"""
+    k = cfg[key]
+    if k is None:
+        return None
+    if k == 0 and cfg.get('int0'):
+        return 0
+    return t_of(k, fs)
+
+
+def _tr_sq(e):
+    """a pointwise envelope transform with f(0) = 0 and f(1) = 1 exactly"""
+    return e * e
+
+
+TRANSFORMS = {'sq': _tr_sq}
+
+
 def mk(cfg, fs):
     """Build the real factory for cfg."""
     from psiaudio import stim
     t = cfg['t']
     if t == 'tone':
-        return stim.ToneFactory(fs, cfg['f'], cfg['level'], phase=cfg.get('phase', 0), polarity=cfg.get('pol', 1))
+        return stim.ToneFactory(fs, cfg['f'], cfg['level'], **_kw(cfg, {'phase': 'phase', 'pol': 'polarity'}))
     if t == 'samtone':
-        return stim.SAMToneFactory(fs, cfg['fc'], cfg['fm'], cfg['level'])
+        return stim.SAMToneFactory(fs, cfg['fc'], cfg['fm'], cfg['level'],
+                                   **_kw(cfg, {'phase': 'phase', 'phase_lb': 'phase_lb', 'phase_ub': 'phase_ub',
+                                               'pol': 'polarity', 'eq_power': 'eq_power', 'equalize': 'equalize'}))
     if t == 'silence':
-        return stim.SilenceFactory(fill_value=cfg['fill'])
+        return stim.SilenceFactory(**_kw(cfg, {'fill': 'fill_value'}))
     if t == 'bbnoise':
-        return stim.BroadbandNoiseFactory(fs, cfg['level'], seed=cfg['seed'])
+        return stim.BroadbandNoiseFactory(fs, cfg['level'], **_kw(cfg, {'seed': 'seed', 'pol': 'polarity'}))
     if t == 'blnoise':
-        return stim.BandlimitedNoiseFactory(fs, cfg['seed'], cfg['level'], cfg['fl'], cfg['fh'], 1, 1, 80)
+        return stim.BandlimitedNoiseFactory(fs, cfg['seed'], cfg['level'], cfg['fl'], cfg['fh'], 1, 1, 80,
+                                            **_kw(cfg, {'pol': 'polarity', 'discard': 'discard_initial_samples'}))
     if t == 'firnoise':
         from psiaudio.calibration import FlatCalibration
         return stim.BandlimitedFIRNoiseFactory(fs, cfg['fl'], cfg['fh'], cfg['level'], ntaps=cfg.get('ntaps', 101),
-                                               seed=cfg['seed'], calibration=FlatCalibration.unity())
+                                               seed=cfg['seed'], calibration=FlatCalibration.unity(),
+                                               **_kw(cfg, {'pol': 'polarity', 'window': 'window', 'equalize': 'equalize'}))
     if t == 'shaped':
-        gains = {0: -20, fs / 8: 0, fs / 4: -6, fs / 2: -40}
-        return stim.ShapedNoiseFactory(fs, cfg['level'], gains, ntaps=cfg.get('ntaps', 101), seed=cfg['seed'])
+        return stim.ShapedNoiseFactory(fs, cfg['level'], shaped_gains(fs), ntaps=cfg.get('ntaps', 101), seed=cfg['seed'],
+                                       **_kw(cfg, {'pol': 'polarity', 'window': 'window'}))
     if t == 'square':
         return stim.SquareWaveFactory(fs, cfg['level'], cfg['freq'], cfg['duty'])
     if t == 'fixed':
@@ -49,32 +89,43 @@ def mk(cfg, fs):
         if cfg.get('cls') == 'chirp':
             from psiaudio.calibration import FlatCalibration
             return stim.ChirpFactory(fs, fs / 20.0, fs / 5.0, cfg['n'] / fs + 0.25 / fs, 1.0, FlatCalibration.unity(),
-                                     window=cfg.get('window', 'boxcar'))
+                                     **_kw(cfg, {'window': 'window'}))
         if cfg.get('cls') == 'wav':
-            return stim.WavFileFactory(fs, _wav_path(cfg['n'], fs), normalization=cfg.get('norm', 'pe'))
+            path = _wav_path(cfg['n'], fs)
+            if cfg.get('path'):
+                from pathlib import Path
+                path = Path(path)
+            return stim.WavFileFactory(fs, path, **_kw(cfg, {'norm': 'normalization'}))
         if cfg.get('cls') == 'blclick':
             return stim.BandlimitedClickFactory(fs, fs / 10.0, fs / 4.0, cfg['n'] / fs, 1.0)
-        return stim.FixedWaveform(fs, fixed_array(cfg))
+        return stim.FixedWaveform(fs, fixed_raw(cfg))
     if t == 'gate':
-        return stim.GateFactory(fs, t_of(cfg['start'], fs), t_of(cfg['dur'], fs), mk(cfg['in'], fs))
+        return stim.GateFactory(fs, tsec(cfg, 'start', fs), tsec(cfg, 'dur', fs), mk(cfg['in'], fs))
     if t == 'env':
-        rise = None if cfg['rise'] is None else t_of(cfg['rise'], fs)
+        rise = tsec(cfg, 'rise', fs)
+        kw = {}
+        if not (cfg.get('defstart') and cfg['start'] == 0):
+            kw['start_time'] = tsec(cfg, 'start', fs)       # 'defstart': the constructor's own default start_time
         if cfg['window'] == 'cos2class':
-            return stim.Cos2EnvelopeFactory(fs, t_of(cfg['dur'], fs), rise, mk(cfg['in'], fs),
-                                            start_time=t_of(cfg['start'], fs))
-        return stim.EnvelopeFactory(cfg['window'], fs, t_of(cfg['dur'], fs), rise, mk(cfg['in'], fs),
-                                    start_time=t_of(cfg['start'], fs))
+            return stim.Cos2EnvelopeFactory(fs, tsec(cfg, 'dur', fs), rise, mk(cfg['in'], fs), **kw)
+        if cfg.get('transform'):
+            kw['transform'] = TRANSFORMS[cfg['transform']]
+        return stim.EnvelopeFactory(cfg['window'], fs, tsec(cfg, 'dur', fs), rise, mk(cfg['in'], fs), **kw)
     if t == 'sam':
         return stim.SAMEnvelopeFactory(fs, cfg['depth'], cfg['fm'], cfg['delay'], cfg.get('direction', 1),
-                                       mk(cfg['in'], fs), onset_method=cfg.get('onset', 'ss_transition'))
+                                       mk(cfg['in'], fs), **_kw(cfg, {'onset': 'onset_method'}))
     if t == 'sqenv':
         return stim.SquareWaveEnvelopeFactory(fs, cfg['depth'], cfg['fm'], cfg['duty'], None, mk(cfg['in'], fs),
-                                              alpha=cfg.get('alpha', 0))
+                                              **_kw(cfg, {'alpha': 'alpha'}))
     if t == 'notch':
         return stim.NotchFilterFactory(fs, cfg['f'], cfg['q'], mk(cfg['in'], fs))
     if t == 'repeat':
         return stim.RepeatFactory(fs, cfg['n'], cfg['skip'], cfg['rate'], cfg['delay'], mk(cfg['in'], fs))
     raise KeyError(t)
+
+
+def shaped_gains(fs):
+    return {0: -20, fs / 8: 0, fs / 4: -6, fs / 2: -40}
 
 
 def _wav_path(n, fs):
@@ -91,12 +142,26 @@ def _wav_path(n, fs):
     return path
 
 
-def fixed_array(cfg, fs=None):
+def fixed_raw(cfg):
+    """the array handed to FixedWaveform (dtype / read-only flag as cfg says)"""
     n = cfg['n']
+    dt = cfg.get('dtype')
+    if dt == 'int16':
+        a = (np.arange(n) * 3 - 7).astype(np.int16)
+    elif dt == 'float32':
+        a = ((np.arange(n, dtype=np.double) + 1.0) * 0.37 - 3.0).astype(np.float32)
+    else:
+        a = (np.arange(n, dtype=np.double) + 1.0) * 0.37 - 3.0
+    if cfg.get('ro'):
+        a.setflags(write=False)
+    return a
+
+
+def fixed_array(cfg, fs=None):
     if cfg.get('cls'):
         # the real FixedWaveform subclasses compute their own array once; recipes index into it
         return np.asarray(mk(cfg, fs).waveform, dtype=float)
-    return (np.arange(n, dtype=np.double) + 1.0) * 0.37 - 3.0
+    return np.asarray(fixed_raw(cfg), dtype=float)
 
 
 CARRIERS = ('tone', 'samtone', 'silence', 'bbnoise', 'blnoise', 'firnoise', 'shaped')
@@ -143,7 +208,7 @@ def coq_gen(cfg, reg):
     if t == 'env':
         dur = eff(cfg['dur'], fs)
         rise = int(np.floor(dur / 2)) if cfg['rise'] is None else eff(cfg['rise'], fs)
-        nid = reg.new({'kind': 'ramp', 'window': cfg['window'], 'rise': rise})
+        nid = reg.new({'kind': 'ramp', 'window': cfg['window'], 'rise': rise, 'transform': cfg.get('transform')})
         return f'(GEnv {nid} {zlit(eff(cfg["start"], fs))} {zlit(dur)} {zlit(rise)} {inner})'
     if t == 'sam':
         D = int(cfg['delay'] * fs)
@@ -179,6 +244,44 @@ def coq_ops(ops):
 
 
 # ---------------------------------------------------------------------------
+def op_flags(o):
+    """flags of a next/rest op: ['next', n, 'np64+scr'] -> {'np64', 'scr'}"""
+    i = 2 if o[0] == 'next' else 1
+    return set(o[i].split('+')) if len(o) > i and o[i] else set()
+
+
+def typed_count(n, flags):
+    """the draw count in the argument kind the flags ask for (NumPy ints; floats only where accepts_float)"""
+    if 'np64' in flags:
+        return np.int64(n)
+    if 'np32' in flags:
+        return np.int32(n)
+    if 'npf' in flags:
+        return np.float64(n)
+    if 'pyf' in flags:
+        return float(n)
+    return n
+
+
+def scribble(a):
+    """the caller writes into an array it received (a read-only array refuses: fine)"""
+    try:
+        a[...] = True if a.dtype == bool else 77
+    except (ValueError, TypeError):
+        pass
+
+
+def accepts_float(cfg):
+    """stimuli whose own n_samples_remaining() is a NumPy float (FixedWaveform and transforms of one), so that the
+    queue / get_samples_remaining() hand them float-typed counts"""
+    t = cfg['t']
+    if t in ('fixed', 'repeat'):
+        return True
+    if t in ('sam', 'sqenv', 'notch'):
+        return accepts_float(cfg['in'])
+    return False
+
+
 def run_impl(cfg, fs, ops):
     """Drive the real factory.  Every observable becomes a JSON-able value."""
     res = []
@@ -188,9 +291,12 @@ def run_impl(cfg, fs, ops):
         return [['ctor-raise', 'ValueError']]
     for o in ops:
         if o[0] == 'next':
+            fl = op_flags(o)
             try:
-                a = f.next(o[1])
+                a = f.next(typed_count(o[1], fl))
                 res.append(['next', [float(v) for v in np.asarray(a, dtype=float)]])
+                if 'scr' in fl:
+                    scribble(a)
             except ValueError:
                 res.append(['raise', 'ValueError'])
         elif o[0] == 'rest':
@@ -199,6 +305,8 @@ def run_impl(cfg, fs, ops):
             try:
                 a = f.get_samples_remaining()
                 res.append(['next', [float(v) for v in np.asarray(a, dtype=float)]])
+                if 'scr' in op_flags(o):
+                    scribble(a)
             except ValueError:
                 res.append(['raise', 'ValueError'])
         elif o[0] == 'reset':
@@ -209,8 +317,32 @@ def run_impl(cfg, fs, ops):
                 res.append(['raise', 'ValueError'])
                 break
         else:
-            res.append(['query', _q(f.n_samples), _q(f.n_samples_remaining), bool(f.is_complete())])
+            res.append(['query', _q(f.n_samples), _q(f.n_samples_remaining), bool(f.is_complete()), _dur(f)])
     return res
+
+
+def _dur(f):
+    """get_duration() in seconds (None = infinite / not implemented); judged by C09's oracle only"""
+    try:
+        v = f.get_duration()
+    except NotImplementedError:
+        return None
+    return None if v == np.inf else float(v)
+
+
+def duration_expected(cfg, fs):
+    """get_duration() as the property reads: start + duration / array length over fs / (n + skip) periods"""
+    t = cfg['t']
+    if t in ('gate', 'env'):
+        st = 0 if (t == 'env' and cfg.get('defstart') and cfg['start'] == 0) else tsec(cfg, 'start', fs)
+        return float(st + tsec(cfg, 'dur', fs))
+    if t == 'fixed':
+        return cfg['n'] / fs
+    if t == 'repeat':
+        return (cfg['n'] + cfg['skip']) / cfg['rate']
+    if t in ('sam', 'sqenv', 'notch'):
+        return duration_expected(cfg['in'], fs)
+    return None
 
 
 def _q(fn):
@@ -251,6 +383,9 @@ class Evaluator:
             m = 2 * info['rise']
             w = info['window']
             a = stim.cos2ramp(m) if w in ('cosine-squared', 'cos2class') else getattr(signal.windows, w)(m)
+            if info.get('transform'):
+                # pointwise transform with f(0) = 0, f(1) = 1: zeros and the plateau are unchanged, the ramp is f(window)
+                a = TRANSFORMS[info['transform']](a)
         elif k == 'sqenv':
             c = info['cfg']
             a = signal.windows.tukey(info['duty'], c.get('alpha', 0)) * c['depth'] + (1 - c['depth'])
@@ -264,11 +399,13 @@ class Evaluator:
         c = self.reg.nodes[nid]['cfg']
         onset = c.get('onset', 'ss_transition')
         depth, fm = c['depth'], c['fm']
-        if onset == 'ss_transition':
+        if 'eq_phase' in c:
+            eq_phase = c['eq_phase']            # _sam_envelope called directly with explicit values
+        elif onset == 'ss_transition':
             eq_phase = stim.sam_eq_phase(c['delay'], depth, c.get('direction', 1))
         else:
             eq_phase = np.pi
-        eq_power = stim.sam_eq_power(depth)
+        eq_power = c['eq_power'] if 'eq_power' in c else stim.sam_eq_power(depth)
         idx = np.asarray(idx, dtype=np.double)
         t = idx / self.fs
         e = depth / 2.0 * np.cos(2.0 * np.pi * fm * t + eq_phase) + 1.0 - depth / 2.0
@@ -503,3 +640,127 @@ def boundaries(cfg, fs):
     if 'in' in cfg and t != 'repeat':
         b |= boundaries(cfg['in'], fs)
     return b
+
+
+# ---------------------------------------------------------------------------
+# coverage-audit additions: non-default constructor keywords, unusual-but-legal argument kinds, falsy values,
+# boundary values of the code's comparisons, twins (subclasses / function variants)
+def catalogue_extra(fs):
+    tone = {'t': 'tone', 'f': fs / 8.0, 'level': 1.5, 'phase': 0.3}
+    sil1 = {'t': 'silence', 'fill': 1}
+    fx = {'t': 'fixed', 'n': 13}
+    ifreq = max(int(fs // 8), 1)            # integer-typed frequency
+    noise = {'t': 'bbnoise', 'seed': 6, 'level': 1.0}
+    return [
+        # carriers: integer-typed arguments, defaults left to the constructor, every non-default keyword
+        {'t': 'tone', 'f': ifreq, 'level': 2},
+        {'t': 'tone', 'f': fs / 9.0, 'level': 1.0, 'cal': True, 'pol': -1},
+        {'t': 'samtone', 'fc': fs / 6.0, 'fm': fs / 40.0, 'level': 1.0, 'phase': 0.4, 'phase_lb': 0.2, 'phase_ub': 0.1,
+         'pol': -1, 'eq_power': False},
+        {'t': 'samtone', 'fc': int(fs // 6), 'fm': int(fs // 40), 'level': 1, 'cal': True, 'equalize': False},
+        {'t': 'samtone', 'fc': fs / 6.0, 'fm': fs / 40.0, 'level': 0.5, 'cal': True, 'equalize': True},
+        {'t': 'silence'},
+        {'t': 'silence', 'fill': 2.5},
+        {'t': 'bbnoise', 'level': 1.0},
+        {'t': 'bbnoise', 'seed': 5, 'level': 0.7, 'pol': -1, 'cal': True},
+        {'t': 'blnoise', 'seed': 2, 'level': 1.0, 'fl': fs / 10, 'fh': fs / 5, 'pol': -1, 'discard': False},
+        {'t': 'firnoise', 'seed': 0, 'level': 1.0, 'fl': fs / 10, 'fh': fs / 5, 'pol': -1, 'window': 'hamming',
+         'equalize': True},
+        {'t': 'shaped', 'seed': 0, 'level': 1.0, 'pol': -1, 'window': 'hamming'},
+        {'t': 'square', 'level': 1, 'freq': ifreq, 'duty': 0.3},
+        {'t': 'square', 'level': 1.5, 'freq': fs / 5.0, 'duty': 0.0},
+        {'t': 'square', 'level': 1.5, 'freq': fs / 5.0, 'duty': 1.0},
+        {'t': 'square', 'level': 1.5, 'freq': fs, 'duty': 1.0},
+        # fixed waveforms: integer / float32 / read-only arrays, empty and one-sample arrays, the other subclass options
+        {'t': 'fixed', 'n': 11, 'dtype': 'int16'},
+        {'t': 'fixed', 'n': 10, 'dtype': 'float32', 'ro': True},
+        {'t': 'fixed', 'n': 0},
+        {'t': 'fixed', 'n': 1},
+        {'t': 'fixed', 'n': 7, 'cls': 'click', 'pol': 1},
+        {'t': 'fixed', 'n': 18, 'cls': 'chirp'},
+        {'t': 'fixed', 'n': 17, 'cls': 'wav', 'norm': 'rms', 'path': True},
+        {'t': 'fixed', 'n': 19, 'cls': 'wav', 'norm': None},
+        # gate: int 0 start, zero duration, rounding ties, bool / int / float32 tokens modified in place
+        {'t': 'gate', 'start': 0, 'dur': 7, 'int0': True, 'in': tone},
+        {'t': 'gate', 'start': 3, 'dur': 0, 'in': tone},
+        {'t': 'gate', 'start': 2.5, 'dur': 6.5, 'in': tone},
+        {'t': 'gate', 'start': 2, 'dur': 5, 'in': {'t': 'silence', 'fill': True}},
+        {'t': 'gate', 'start': 3, 'dur': 5, 'in': {'t': 'fixed', 'n': 11, 'dtype': 'int16'}},
+        {'t': 'gate', 'start': 1, 'dur': 12, 'in': {'t': 'fixed', 'n': 17, 'cls': 'wav'}},
+        {'t': 'gate', 'start': 2, 'dur': 9, 'in': {'t': 'square', 'level': 2.0, 'freq': fs / 4.0, 'duty': 0.5}},
+        # envelopes: the constructor's default start, int 0 rise, transform, windows with non-zero end points,
+        # shortest durations, rounding ties
+        {'t': 'env', 'window': 'cos2class', 'start': 0, 'dur': 12, 'rise': 3, 'defstart': True, 'in': tone},
+        {'t': 'env', 'window': 'hann', 'start': 0, 'dur': 9, 'rise': 0, 'defstart': True, 'int0': True, 'in': tone},
+        {'t': 'env', 'window': 'hann', 'start': 3, 'dur': 14, 'rise': 4, 'transform': 'sq', 'in': sil1},
+        {'t': 'env', 'window': 'cosine-squared', 'start': 2.4, 'dur': 11.3, 'rise': None, 'transform': 'sq', 'in': tone},
+        {'t': 'env', 'window': 'hamming', 'start': 2, 'dur': 11, 'rise': 3, 'in': sil1},
+        {'t': 'env', 'window': 'bartlett', 'start': 1, 'dur': 10, 'rise': 5, 'in': tone},
+        {'t': 'env', 'window': 'cosine-squared', 'start': 3, 'dur': 0, 'rise': None, 'in': sil1},
+        {'t': 'env', 'window': 'hann', 'start': 2, 'dur': 1, 'rise': None, 'in': sil1},
+        {'t': 'env', 'window': 'cosine-squared', 'start': 0, 'dur': 2, 'rise': 1, 'int0': True, 'in': sil1},
+        {'t': 'env', 'window': 'cos2class', 'start': 2.5, 'dur': 8.5, 'rise': 1.5, 'in': tone},
+        {'t': 'env', 'window': 'cosine-squared', 'start': 2, 'dur': 9, 'rise': 3, 'in': noise},
+        # SAM: direction -1, depth 0 (falsy), int 0 delay, finite input
+        {'t': 'sam', 'depth': 0.7, 'fm': fs / 12.0, 'delay': 4 / fs, 'direction': -1, 'in': sil1},
+        {'t': 'sam', 'depth': 0, 'fm': fs / 12.0, 'delay': 0, 'in': tone},
+        {'t': 'sam', 'depth': 0.0, 'fm': fs / 12.0, 'delay': 3.5 / fs, 'direction': -1, 'in': tone},
+        {'t': 'sam', 'depth': 1, 'fm': ifreq, 'delay': 5 / fs, 'in': fx},
+        # square-wave envelope: the constructor's default alpha, alpha 1 (Hann), on-portion = whole period, finite input
+        {'t': 'sqenv', 'depth': 0.8, 'fm': fs / 8.0, 'duty': 1.0, 'alpha': 1.0, 'in': sil1},
+        {'t': 'sqenv', 'depth': 1, 'fm': fs / 6.5, 'duty': 0.5, 'alpha': 0.25, 'in': fx},
+        # notch over a finite / a deterministic input; repeat: off-grid period and delay, no repetition, one below the
+        # length limit, transform of a fixed waveform as input, infinite input (rejected)
+        {'t': 'notch', 'f': ifreq, 'q': 2, 'in': fx},
+        {'t': 'notch', 'f': fs / 5.0, 'q': 1.33, 'in': tone},
+        {'t': 'repeat', 'n': 2, 'skip': 1, 'rate': fs / 12.4, 'delay': 2.6 / fs, 'in': {'t': 'fixed', 'n': 8}},
+        {'t': 'repeat', 'n': 0, 'skip': 0, 'rate': fs / 6.0, 'delay': 0, 'in': {'t': 'fixed', 'n': 4}},
+        {'t': 'repeat', 'n': 0, 'skip': 2, 'rate': fs / 6.0, 'delay': 0, 'in': {'t': 'fixed', 'n': 4}},
+        {'t': 'repeat', 'n': 2, 'skip': 0, 'rate': fs / 10.0, 'delay': 0.0, 'in': {'t': 'fixed', 'n': 9}},
+        {'t': 'repeat', 'n': 2, 'skip': 1, 'rate': fs / 11.0, 'delay': 1 / fs,
+         'in': {'t': 'sam', 'depth': 1.0, 'fm': fs / 7.0, 'delay': 2 / fs, 'in': {'t': 'fixed', 'n': 9}}},
+        {'t': 'repeat', 'n': 2, 'skip': 0, 'rate': fs / 10.0, 'delay': 0.0, 'in': tone},
+    ]
+
+
+def has_filter(cfg):
+    """a stateful scipy filter somewhere in the chain (a zero-sample draw corrupts its state: scipy quirk, out of scope)"""
+    return cfg['t'] in ('notch', 'blnoise', 'firnoise', 'shaped') or ('in' in cfg and has_filter(cfg['in']))
+
+
+def kinds_history(cfg, fs, rng, total=None):
+    """one draw history with NumPy-typed draw counts (float-typed ones where the stimulus reports a float count itself),
+    the caller writing into every array it receives, queries in between, and a reset followed by a different chunking"""
+    B = sorted(boundaries(cfg, fs))
+    hi = max(B) + 5
+    flt = accepts_float(cfg)
+    kinds = ['np64', 'np32'] + (['npf', 'pyf'] if flt else [])
+    lo = 1 if has_filter(cfg) else 0
+    ops = []
+    for rnd in range(2):
+        pos = 0
+        for _ in range(rng.randint(2, 4)):
+            n = rng.choice([1, 2, 3, rng.randint(lo, max(hi // 2, 1))])
+            ops.append(['next', n, rng.choice(kinds) + '+scr'])
+            pos += n
+            if rng.random() < 0.5:
+                ops.append(['query'])
+        if not has_filter(cfg) and rng.random() < 0.6:
+            ops.append(['rest', 'scr'])          # may be a zero-sample draw: not sent through scipy filters
+            ops.append(['next', 2, 'scr'])
+        if rnd == 0:
+            ops.append(['reset'])
+    return ops
+
+
+def parse_factors(mo):
+    n = mo[0]
+    return [tuple(mo[1 + 3 * i: 4 + 3 * i]) for i in range(n)]
+
+
+def frag_values(fs, info, factors):
+    """evaluate the recipes of a directly called fragment function (node id 0 = info)"""
+    reg = Registry(fs)
+    reg.nodes[0] = info
+    ev = Evaluator(reg, 0)
+    return [ev.factor(*f) for f in factors]
